@@ -1,7 +1,7 @@
 """Proof obligations of the summaries a check relies on (assume/guarantee made self-contained).
 
-A property whose check replaces the rounding helpers by their summaries (R: i128_div_rounded, W: the wide helpers under
-contract U) re-runs the summaries' proofs here, so that a change inside a helper is reported by every property that depends on it.
+A property whose check replaces the rounding helpers by their summaries (R: i128_div_rounded, W: the wide helpers, U: the unsigned
+kernels) re-runs the summaries' proofs here, so that a change inside a helper is reported by every property that depends on it.
 """
 from ..harness import run_jobs
 from . import c05, c16
@@ -37,6 +37,7 @@ def jobs_W(tier, kinds=('shifted', 'muldiv')):
         for sx in ('neg', 'zero', 'pos'):
             for s2 in ('neg', 'zero', 'pos'):
                 jobs.append(('c16', ('S', 'muldiv', '-', sx, 'pos', s2)))
+    jobs = [('c16', j) for j in c16.kernel_jobs(tier, dep=True)] + jobs       # the unsigned kernels the wrappers stand on
     for mode in c05.MODES:
         for via_none in (False, True):
             for p in (1, 19, 38):
@@ -75,5 +76,6 @@ def run(rep, tier, which=('R', 'W')):
         rep.floor('DEP-R-DIV-ROUNDED', 64)
         rep.floor('DEP-F-DIV-MOD-FLOOR', 4)
     if wk:
+        rep.floor('DEP-U-KERNEL', 7)
         rep.floor('DEP-S-WIDE-FLOOR', 9 if wk == ['muldiv'] else 36)
         rep.floor('DEP-W-WIDE-ROUNDED', 96 * len(wk) if len(wk) == 1 and wk[0] == 'muldiv' else 190)
